@@ -103,6 +103,13 @@ func checkClause(prog *Program, fi *FuncInfo, cl *Clause, pos token.Pos, ghostTy
 		// a wrong guess can only make the proof fail).
 		for tries := 0; err != nil && tries < 12; tries++ {
 			m := undefinedRe.FindStringSubmatch(err.Error())
+			pkgUse := false
+			if m == nil {
+				// a parameter that shadowed an imported package was renamed: the bare name now denotes the package
+				if m = pkgUseRe.FindStringSubmatch(err.Error()); m != nil {
+					pkgUse = true
+				}
+			}
 			if m == nil {
 				break
 			}
@@ -110,7 +117,11 @@ func checkClause(prog *Program, fi *FuncInfo, cl *Clause, pos token.Pos, ghostTy
 			if !ok {
 				break
 			}
-			body = replaceIdent(body, m[1], to)
+			if pkgUse {
+				body = bareIdentRe(m[1]).ReplaceAllString(body, "${1}"+to+"${2}")
+			} else {
+				body = replaceIdent(body, m[1], to)
+			}
 			// the renamed clause may now mention a ghost name (result, result0 ...) it did not mention before
 			used2 := identsIn(body)
 			params = nil
@@ -152,6 +163,13 @@ func checkClause(prog *Program, fi *FuncInfo, cl *Clause, pos token.Pos, ghostTy
 	cc.expr = lit.Body.List[0].(*ast.ReturnStmt).Results[0]
 	cc.info = info
 	return cc
+}
+
+var pkgUseRe = regexp.MustCompile(`use of package ([A-Za-z_][A-Za-z0-9_]*) not in selector`)
+
+// bareIdentRe: occurrences of name that are neither a selector's field nor the base of a selector (name.X stays).
+func bareIdentRe(name string) *regexp.Regexp {
+	return regexp.MustCompile(`(^|[^A-Za-z0-9_.])` + regexp.QuoteMeta(name) + `($|[^A-Za-z0-9_.])`)
 }
 
 var undefinedRe = regexp.MustCompile(`undefined: ([A-Za-z_][A-Za-z0-9_]*)`)
